@@ -50,10 +50,16 @@ let rb = function Ok true -> "1" | Ok false -> "0" | OutOfFuel -> "F" | Crash ->
 let rf = function Ok FZero -> "Z" | Ok (FPow q) -> qs q | OutOfFuel -> "F" | Crash -> "X"
 
 let () =
+  if Sys.argv.(1) = "--fixes" then begin
+    (* the setting of the model's current_fixes, as the three characters argv[2] takes *)
+    let c b = if b then "1" else "0" in
+    print_endline (c current_fixes.fx_import ^ c current_fixes.fx_std ^ c current_fixes.fx_pop);
+    exit 0
+  end;
   let ic = open_in Sys.argv.(1) in
-  (* argv[2] (optional) = two characters, fx_import and fx_std, e.g. "10"; default: the model's current_fixes *)
+  (* argv[2] (optional) = three characters, fx_import fx_std fx_pop, e.g. "110"; default: the model's current_fixes *)
   let fx = if Array.length Sys.argv > 2 then
-      { fx_import = Sys.argv.(2).[0] = '1'; fx_std = Sys.argv.(2).[1] = '1' }
+      { fx_import = Sys.argv.(2).[0] = '1'; fx_std = Sys.argv.(2).[1] = '1'; fx_pop = Sys.argv.(2).[2] = '1' }
     else current_fixes in
   (try
      while true do
@@ -73,7 +79,7 @@ let () =
                                  rf (scaling_factor fx fuel w a c) ^ " ")) opts) opts;
           Buffer.add_string b "| ";
           List.iter (fun (mi, n) ->
-            let d = is_defined fuel w mi n in
+            let d = is_defined fx fuel w mi n in
             let mp = if d = Ok true then
                 (match define_units_map fx fuel w (mi, n) with
                  | Ok m -> let l = List.sort compare (List.map (fun (k, v) -> implode k ^ "=" ^ qs v) m) in
